@@ -2,6 +2,7 @@
 package analyzer
 
 import (
+	"github.com/go-critic/go-critic/checkers"
 	"github.com/go-critic/go-critic/linter"
 
 	"golang.org/x/tools/go/analysis"
@@ -34,9 +35,16 @@ var (
 	stringParams = make(map[string]*string)
 )
 
-var registeredCheckers = linter.GetCheckersInfo()
+var registeredCheckers []*linter.CheckerInfo
 
 func init() {
+	// The rule-based checkers are registered by an explicit call;
+	// it has to happen before the registry snapshot is taken.
+	if err := checkers.InitEmbeddedRules(); err != nil {
+		panic(err)
+	}
+	registeredCheckers = linter.GetCheckersInfo()
+
 	Analyzer.Flags.BoolVar(&flagDebugInit, "debug-init", false,
 		`print go-critic initialization related debug info`)
 	Analyzer.Flags.BoolVar(&flagEnableAll, "enable-all", false,
